@@ -52,40 +52,87 @@ DESCR = {
 }
 
 
+DESCR2 = {
+    "C01": ("router.py gn_geometric_function_f: azimuth rotation skipped when a == b (same change as round-1 C07, offered against C01)",
+            "GBC/GAC to a rotated square (rectangle, a == b, azimuth not a multiple of 90 degrees) with a station in a corner region: inside but no delivery / outside but delivered"),
+    "C02": ("service_access_point.py TrafficClass.encode_to_int: SCF and channel-offload bits swapped (decoder untouched)",
+            "a traffic class with exactly one of SCF / channel offload set, in any re-encoded common header (source and forwarder)"),
+    "C03": ("certificate.py Certificate.verify: the 'version == 3' check removed",
+            "certificate-form signer whose certificate has only the (unsigned) version octet altered; it is also learned as a known ticket under a new HashedId8"),
+    "C04": ("router.py process_common_header: the RHL > MHL check moved behind the per-type handlers",
+            "a frame of a valid source with RHL > MHL (one flipped bit in octet 3): location table and duplicate list already updated and the frame forwarded before it is rejected; the intact frame arriving later is dropped as duplicate"),
+    "C05": ("verify_service.py verify: inlineP2pcdRequest / requestedCertificate handled only for psid 36",
+            "the certificate request arrives inside a VAM (psid 638) of a station that knows only root and AA"),
+    "C06": ("router.py gn_data_indicate_gac: 'new_rhl <= 0' -> 'new_rhl == 0'",
+            "GAC received with RHL exactly 0 outside the area: re-emitted with RHL 255"),
+    "C07": ("router.py gn_geometric_function_f: a, b = max(a, b), min(a, b)",
+            "any area whose b field exceeds its a field"),
+    "C08": ("location_table.py update_position_vector: raw .msec comparison instead of the wrap-aware TST order",
+            "two packets of one source either side of the 2^32 ms wrap within the entry lifetime"),
+    "C09": ("verify_service.py verify: the ticket permission / validity check became the else-arm of the DENM branch",
+            "a psid-37 message with certificate signer and generationLocation, signed by a genuine ticket lacking psid 37 or outside its validity"),
+    "C10": ("vam_transmission_management.py location_service_callback: generationDeltaTime difference taken on plain ints",
+            "report timestamps crossing the 65.536 s wrap after a VAM while the VRU stays below the dynamics triggers: VAM gap of ~65 s"),
+    "C11": ("cam_transmission_management.py GenerationDeltaTime.as_timestamp_in_certain_point: wrap fallback with the wrong sign",
+            "message generated before and received after a generationDeltaTime wrap: reconstructed time 10 000 ms late"),
+    "C12": ("dictionary_database.py insert: next id = max(stored ids) + 1 instead of a monotonic counter",
+            "the object holding the highest identifier is deleted or expires before the next add: identifier reused, stale handles hit the new object"),
+    "C13": ("ldm_service.py order_search_results: stable sorts applied in forward instead of reverse key order",
+            "order tuple with >= 2 keys whose orderings disagree (both back-ends wrong in the same way)"),
+    "C14": ("ldm_service.py: multiplicity check moved behind the interval bookkeeping",
+            "multiplicity >= 2, interval longer than the attendance period, 1..multiplicity-1 matches when the interval elapses: the interval restarts without a notification"),
+    "C15": ("router.py gn_ls_request: 'lookup pending?' read outside _ls_lock",
+            "two threads sending GUC to the same unresolved destination, one preempted between its check and the lock: second overwrites the LS buffer, first request lost, two LS requests"),
+    "C16": ("ldm_service.py remove_subscription: membership test moved before 'with self._lock'",
+            "two threads unsubscribing the same subscription: the loser raises ValueError out of IF.LDM.4"),
+    "C17": ("denm_transmission_management.py trigger_denm_messages: for _ in range(T // i)",
+            "duration not a multiple of the interval (floor instead of ceil), 0 < T < i gives no DENM at all"),
+    "C18": ("vru_clustering.py _process_received_vam: early return after _complete_join",
+            "the leader's VAM that admits the joiner also announces break-up: the joiner stays passive in a dissolved cluster while the ex-leader keeps sending individual VAMs"),
+    "C19": ("dcc_adaptive.py DccAdaptive.update: early return when delta is saturated and pushed outwards",
+            "delta saturated at delta_max (about 200 near-idle evaluations with the defaults), then CBR between 0.28 and 0.68: delta must decay but stays"),
+    "C20": ("basic_header.py initialize_with_mib_request_and_rhl: 'is not None' -> truthiness",
+            "explicit maximum packet lifetime of exactly 0: sent with the MIB default (60 s)"),
+}
+
+
 def main():
     res = {}
-    for f in sorted(glob.glob(os.path.join(HERE, ".work", "seeded_eval_*.log"))):
+    for f in sorted(glob.glob(os.path.join(HERE, ".work", "seeded*_eval_*.log"))):
         for line in open(f):
-            m = re.match(r"RESULT (C\d\d) demo_without=(\d+) demo_with=(\d+) suite=\[(.*?)\] check_exit=(\d+) ?(.*)", line)
+            m = re.match(r"RESULT (C\d\d2?) demo_without=(\d+) demo_with=(\d+) suite=\[(.*?)\] check_exit=(\d+) ?(.*)", line)
             if m:
                 res[m.group(1)] = m.groups()
-    for pid, (change, needs) in sorted(DESCR.items()):
+    items = [(pid, "", v) for pid, v in sorted(DESCR.items())] + [(pid, "2", v) for pid, v in sorted(DESCR2.items())]
+    for pid, suf, (change, needs) in items:
         d = os.path.join(HERE, "seeded", pid)
         if not os.path.isdir(d):
             continue
-        r = res.get(pid)
+        r = res.get(pid + suf)
         meta = {
             "property": pid,
             "change": change,
             "needs": needs,
-            "origin": "fresh sub-agent given only the property text and a scratch git worktree (/tmp/seed-%s); NOTES.md is its own report" % pid,
+            "round": 2 if suf else 1, "files": {"patch": "patch%s.diff" % suf, "demo": "demo%s.py" % suf, "notes": "NOTES%s.md" % suf},
+            "origin": "fresh sub-agent given only the property text%s and a scratch git worktree (/tmp/seed%s-%s); NOTES%s.md is its own report" % (
+                " (plus one line naming the round-1 change, to be avoided)" if suf else "", suf, pid, suf),
             "confirmed_in_scratch_worktree": None if r is None else {
                 "demo_exit_without_change": int(r[1]), "demo_exit_with_change": int(r[2]), "unit_suite_with_change": re.sub(r", \d+ warnings.*", "", r[3]),
                 "commands": ["git -C /repo worktree add /tmp/sv-%s HEAD" % pid, "PYTHONPATH=/tmp/sv-%s/src /venv/bin/python demo.py  (before / after git apply patch.diff)" % pid,
                              "PYTHONPATH=/tmp/sv-%s/src /venv/bin/python -m pytest -q -p no:cacheprovider --timeout=900 tests" % pid, "git -C /repo worktree remove --force /tmp/sv-%s" % pid],
             },
-            "first_check_run": None if r is None else {"command": "tools/with_patch.sh seeded/%s/patch.diff ./check %s --tier quick" % (pid, pid), "exit": int(r[4]),
+            "first_check_run": None if r is None else {"command": "tools/with_patch.sh seeded/%s/patch%s.diff ./check %s --tier quick" % (pid, suf, pid), "exit": int(r[4]),
                                                         "signatures": re.findall(r"signature=(\S+)", r[5])},
         }
         prev = {}
         try:
-            prev = json.load(open(os.path.join(d, "meta.json")))
+            prev = json.load(open(os.path.join(d, "meta%s.json" % suf)))
         except Exception:
             pass
         if "strengthened" in prev:
             meta["strengthened"] = prev["strengthened"]
-        json.dump(meta, open(os.path.join(d, "meta.json"), "w"), indent=1)
-        print(pid, "ok" if r else "no result yet")
+        json.dump(meta, open(os.path.join(d, "meta%s.json" % suf), "w"), indent=1)
+        print(pid + suf, "ok" if r else "no result yet")
 
 
 if __name__ == "__main__":
